@@ -104,6 +104,15 @@ def main():
                 lines = [l for l in p.stdout.splitlines() if l.startswith("VIOLATION") or l.startswith("  sub-check")]
                 ver["checks"][pid] = {"tier": tier, "exit": p.returncode, "wall_s": round(time.time() - t0, 1),
                                       "first": " | ".join(lines[:2])[:500]}
+                # keep the (shrunk) failing case as a regression case of that property
+                for l in p.stdout.splitlines():
+                    if l.startswith("VIOLATION") and "replay=" in l:
+                        rp = l.split("replay=", 1)[1].strip()
+                        if os.path.exists(rp) and "/corpus/" not in rp:
+                            cdir = os.path.join(HERE, "corpus", pid)
+                            os.makedirs(cdir, exist_ok=True)
+                            shutil.copy(rp, os.path.join(cdir, f"{sid}.json"))
+                        break
         finally:
             shutil.rmtree(root, ignore_errors=True)
             shutil.rmtree(out, ignore_errors=True)
